@@ -42,8 +42,10 @@ def run(ck: vlib.Check):
     try:
         expected = translate_imports.expected_keys()
     except Exception as ex:  # noqa
+        # the registry keys cannot be read off the source any more: the sweep still runs, judging what needs no expectation
+        # (the import succeeds, every id a registry holds is served by its own dispatch functions)
         ck.oblige("expected-keys", False, repr(ex))
-        return
+        expected = None
     if ck.tier == "quick":
         pass  # the sweep is cheap enough to be exhaustive in both tiers
     with ThreadPoolExecutor(max_workers=vlib.NCPU) as ex:
@@ -66,11 +68,13 @@ def run(ck: vlib.Check):
                 ck.violation(f"importing {m} first: registry {reg} holds ids its own dispatch functions do not serve: "
                              f"{got['dispatch_bad'][:3]}",
                              {"kind": "dispatch", "module": m, "registry": reg, "bad": got["dispatch_bad"]}, True)
-            if got["keys"] != sorted(expected[reg]):
+            if expected is not None and got["keys"] != sorted(expected[reg]):
                 missing = sorted(set(expected[reg]) - set(got["keys"]))
                 extra = sorted(set(got["keys"]) - set(expected[reg]))
                 ck.violation(f"importing {m} first leaves registry {reg} incomplete: missing {missing[:6]} extra {extra[:6]}",
                              {"kind": "registry", "module": m, "registry": reg, "missing": missing, "extra": extra}, True)
+    if expected is None:
+        return
     # the same sweep under an optimising interpreter (python -O): registration must not depend on assert statements
     with ThreadPoolExecutor(max_workers=vlib.NCPU) as ex:
         results_o = list(ex.map(lambda m: one(m, True), mods))
